@@ -48,11 +48,14 @@ Record cfg := mkCfg {
   f_emit_needs_traffic : bool (* a tick writes about a stream only if its state is not fresh *)
 }.
 
-Inductive wait := WSend (x : Z) (is_bind : bool) | WWg.
+(* WSend x is_bind fl: parked in the channel send of Bind x / Traffic x; fl is the flag of the item it will
+   hand over (set by an Unbind x that overtakes the parked caller: the item is then already in flight) *)
+Inductive wait := WSend (x : Z) (is_bind : bool) (fl : bool) | WWg.
 
 Inductive lstate := LIdle | LWrite (pending : list (Z * bool)).
 (* a pending entry (x, fl): the loop is about to write something about SSRC x; fl = true iff the
-   entry was produced before the latest Unbind of x returned ("already in flight") *)
+   entry was produced before the latest Unbind of x returned ("already in flight"), or the entry is not
+   feedback about a stream at all (a packet of the caller of Traffic; the transport-wide report -1) *)
 
 Record st := mkSt {
   closed : bool;
@@ -98,6 +101,8 @@ Definition flag (x : Z) (l : list (Z * bool)) : list (Z * bool) :=
 Definition lflag (x : Z) (l : lstate) : lstate :=
   match l with LIdle => LIdle | LWrite p => LWrite (flag x p) end.
 Definition norm (p : list (Z * bool)) : lstate := match p with [] => LIdle | _ => LWrite p end.
+Definition wflag (x : Z) (w : wait) : wait :=
+  match w with WSend y b fl => if y =? x then WSend y b true else w | WWg => WWg end.
 
 Fixpoint lfind (i : nat) (ls : list (nat * lstate)) : option lstate :=
   match ls with [] => None | (j, l) :: tl => if Nat.eqb j i then Some l else lfind i tl end.
@@ -114,13 +119,14 @@ Fixpoint bdel (t : nat) (b : list (nat * wait)) : list (nat * wait) :=
   match b with [] => [] | (u, w) :: tl => if Nat.eqb u t then bdel t tl else (u, w) :: bdel t tl end.
 
 (* what one tick decides to write: one entry per stream of the table (the snapshot is taken under
-   the table lock), or one transport-wide report (SSRC -1) when there is no per-stream table *)
+   the table lock), or one transport-wide report (SSRC -1, not about any stream: flag true = exempt)
+   when there is no per-stream table *)
 Definition snapshot (c : cfg) (s : st) : list (Z * bool) :=
   match f_table c with
   | TPerSsrc =>
       map (fun e => (fst e, false))
           (filter (fun e => if f_emit_needs_traffic c then negb (Nat.eqb (snd e) 0) else true) (table s))
-  | _ => [(-1, false)]
+  | _ => [(-1, true)]
   end.
 
 (* ---- state updates ---- *)
@@ -137,22 +143,24 @@ Definition set_blocked (s : st) (b : list (nat * wait)) : st :=
   mkSt (closed s) (close_ret s) (loops s) (next_lid s) (chanq s) (table s) (dead s) b (panicked s)
        (emitted s) (late_close s) (late_unbind s).
 
-(* the channel send of an API call.  Some s' = completed, None = must park *)
-Definition do_send (c : cfg) (s : st) (x : Z) : option st :=
+(* the channel send of an API call.  Some s' = completed, None = must park.  fl is the flag of the item:
+   Bind x hands over a request about x (false); Traffic x hands over the caller's own packet, which is
+   not feedback about the stream (true = exempt) *)
+Definition do_send (c : cfg) (s : st) (x : Z) (fl : bool) : option st :=
   match f_chan c with
   | ChNone => Some s
   | ChUnbuf =>
       match first_idle (loops s) with
-      | Some i => Some (if f_recv_emits c then set_loops s (lset i (LWrite [(x, false)]) (loops s)) else s)
+      | Some i => Some (if f_recv_emits c then set_loops s (lset i (LWrite [(x, fl)]) (loops s)) else s)
       | None => None
       end
   | ChUnbufSel =>
       match first_idle (loops s) with
-      | Some i => Some (if f_recv_emits c then set_loops s (lset i (LWrite [(x, false)]) (loops s)) else s)
+      | Some i => Some (if f_recv_emits c then set_loops s (lset i (LWrite [(x, fl)]) (loops s)) else s)
       | None => if closed s then Some s else None
       end
-  | ChBuf1 => if (length (chanq s) <? 1)%nat then Some (set_chan s (chanq s ++ [(x, false)])) else None
-  | ChBufNB => if closed s then Some s else Some (set_chan s (chanq s ++ [(x, false)]))
+  | ChBuf1 => if (length (chanq s) <? 1)%nat then Some (set_chan s (chanq s ++ [(x, fl)])) else None
+  | ChBufNB => if closed s then Some s else Some (set_chan s (chanq s ++ [(x, fl)]))
   end.
 
 Definition bind_table (c : cfg) (x : Z) (t : list (Z * nat)) : list (Z * nat) :=
@@ -165,10 +173,10 @@ Definition bind_table (c : cfg) (x : Z) (t : list (Z * nat)) : list (Z * nat) :=
 Definition unbind_table (c : cfg) (x : Z) (t : list (Z * nat)) : list (Z * nat) :=
   if f_unbind c then match f_table c with TShared => [(0, 0%nat)] | _ => tremove x t end else t.
 
-Definition send_or_park (c : cfg) (s : st) (t : nat) (x : Z) (is_bind : bool) : st :=
-  match do_send c s x with
+Definition send_or_park (c : cfg) (s : st) (t : nat) (x : Z) (is_bind : bool) (fl : bool) : st :=
+  match do_send c s x fl with
   | Some s' => s'
-  | None => set_blocked s ((t, WSend x is_bind) :: blocked s)
+  | None => set_blocked s ((t, WSend x is_bind fl) :: blocked s)
   end.
 
 Definition call (c : cfg) (s : st) (t : nat) (o : op) : st :=
@@ -185,14 +193,15 @@ Definition call (c : cfg) (s : st) (t : nat) (o : op) : st :=
   | OBind x =>
       let s1 := mkSt (closed s) (close_ret s) (loops s) (next_lid s) (chanq s) (bind_table c x (table s))
                      (zremove x (dead s)) (blocked s) (panicked s) (emitted s) (late_close s) (late_unbind s) in
-      match f_site c with SendOnBind => send_or_park c s1 t x true | _ => s1 end
+      match f_site c with SendOnBind => send_or_park c s1 t x true false | _ => s1 end
   | OUnbind x =>
       mkSt (closed s) (close_ret s) (map (fun e => (fst e, lflag x (snd e))) (loops s)) (next_lid s)
-           (flag x (chanq s)) (unbind_table c x (table s)) (x :: zremove x (dead s)) (blocked s) (panicked s)
+           (flag x (chanq s)) (unbind_table c x (table s)) (x :: zremove x (dead s))
+           (map (fun e => (fst e, wflag x (snd e))) (blocked s)) (panicked s)
            (emitted s) (late_close s) (late_unbind s)
   | OTraffic x =>
       let s1 := set_table s (tbump (key c x) (table s)) in
-      match f_site c with SendOnTraffic => send_or_park c s1 t x false | _ => s1 end
+      match f_site c with SendOnTraffic => send_or_park c s1 t x false true | _ => s1 end
   | OClose =>
       let pan := match f_close c with CloseRaw => closed s | CloseIdem => false end in
       if pan then mkSt true (close_ret s) (loops s) (next_lid s) (chanq s) (table s) (dead s) (blocked s) true
@@ -213,8 +222,8 @@ Definition resume (c : cfg) (s : st) (t : nat) : option st :=
                          (panicked s) (emitted s) (late_close s) (late_unbind s))
       | _ => None
       end
-  | Some (WSend x _) =>
-      match do_send c (set_blocked s (bdel t (blocked s))) x with
+  | Some (WSend x _ fl) =>
+      match do_send c (set_blocked s (bdel t (blocked s))) x fl with
       | Some s' => Some s'
       | None => None
       end
